@@ -274,6 +274,40 @@ func drive(args []string) int {
 	}
 	wg.Wait()
 
+	// optional second pass on a 32-bit build (the int / uint readers have code that only runs there)
+	note386 := ""
+	if spec.Extra386Shards > 0 {
+		bin386 := filepath.Join(*bindir, "vcheck-386")
+		runDir386 := filepath.Join(runDir, "386")
+		os.MkdirAll(runDir386, 0o755)
+		if _, err := os.Stat(bin386); err != nil {
+			note386 = "32-bit pass not run: no GOARCH=386 build of the checker (" + err.Error() + ")"
+		} else if out, err := exec.Command(bin386, "list").CombinedOutput(); err != nil {
+			note386 = "32-bit pass not run: the GOARCH=386 build does not execute here (" + err.Error() + " " + strings.TrimSpace(string(out)) + ")"
+		} else {
+			extra := make([]shardResult, spec.Extra386Shards)
+			var wg2 sync.WaitGroup
+			for i := range extra {
+				wg2.Add(1)
+				go func(i int) {
+					defer wg2.Done()
+					extra[i] = runShard(bin386, spec, *prop, *tier, seed, i, spec.Extra386Shards, runDir386, timeout)
+				}(i)
+			}
+			wg2.Wait()
+			var n386 int64
+			for i := range extra {
+				if extra[i].rep != nil {
+					n386 += extra[i].rep.Evaluations
+				}
+				extra[i].shard += 1000
+			}
+			results = append(results, extra...)
+			note386 = fmt.Sprintf("32-bit pass: the whole workload again on a GOARCH=386 build of checker and library, %d shards, %d monitored executions (included in the totals)", spec.Extra386Shards, n386)
+		}
+		fmt.Println(note386)
+	}
+
 	merged := &h.Report{Property: *prop, Counters: map[string]int64{}}
 	inconclusive := []string{}
 	for _, r := range results {
@@ -289,6 +323,9 @@ func drive(args []string) int {
 		} else if r.rep == nil && r.crash == nil {
 			inconclusive = append(inconclusive, fmt.Sprintf("shard %d: no report (%s)", r.shard, r.errText))
 		}
+	}
+	if note386 != "" {
+		merged.Notes = append(merged.Notes, note386)
 	}
 	if spec.Collect != nil {
 		spec.Collect(runDir, merged, seed)
